@@ -18,3 +18,9 @@ _p("C11", "proof",
    "checked against SVG 7.4-7.8 written as spec functions; all paths, all real inputs. The tokenisation of transform strings by "
    "regular expressions is checked only by the bounded component (labelled bounded, not counted as proved).",
    [MATH, CPY, RE])
+
+_p("C19", "other",
+   "Deductive part: Rect.intersection/union/empty and the bounding-box glue are proved for all real inputs; the clip_to_viewbox call site "
+   "is checked as a static obligation on the real AST. The geometric claim itself (exact clipping, tight bounds) rests on the assumed pathops "
+   "contract and is sampled by a bounded component (labelled bounded).",
+   [PATHOPS, LXML, CPY])
